@@ -1054,3 +1054,132 @@ theorem commit_objs_count_of_safe (classes : List ClassSpec) (fuel cls : Nat) (h
   · cases hsafe
 
 end Aoe.Props.CommitFrame
+
+namespace Aoe.Props.CommitFrame
+open Aoe Aoe.Codec Aoe.Lens Aoe.Commit Aoe.Props.Links
+open Aoe.Props.C05 (Diverge frame get_set)
+
+/-! ## what a plain link pushed is what the section holds after the commit - for every class (C03, C05) -/
+
+/-- **a value pushed through a plain link is what its retriever holds after the whole commit**, also in classes with
+object lists and refresh actions: the link's own refresh targets and everything pushed afterwards stay away from it -/
+theorem commit_plain_value (classes : List ClassSpec) (fuel cls : Nat) (hist : List Nat) (vals : List Val) (s s' : Sections)
+    (c : ClassSpec) (hc : classes[cls]? = some c)
+    (h : commitObj classes (fuel + 1) cls hist (.strct vals) s = .ok s')
+    (L1 L2 : List ((Nat × LinkKind) × Val)) (a : Nat) (path : List PStep) (acts : List RefreshAct) (names : List Nat) (v : Val)
+    (hsplit : c.links.zip vals = L1 ++ ((a, .plain path acts names), v) :: L2)
+    (p : List Step) (hp : resolve hist path = some p)
+    (hown : acts.all (fun x => PDiverge (destPPath path x.dest) path) = true)
+    (haway : ∀ lv ∈ L1, linkAway classes fuel hist.length path lv.1.2 = true) :
+    getAt p s'.root = some v := by
+  simp only [commitObj, hc, hsplit] at h
+  rw [List.reverse_append, List.reverse_cons, List.append_assoc, List.foldlM_append] at h
+  simp only [bind, Except.bind] at h
+  cases hA : List.foldlM (pushLink (commitObj classes fuel) hist) s L2.reverse with
+  | error e => rw [hA] at h; cases h
+  | ok sA =>
+    rw [hA] at h
+    simp only [List.singleton_append, List.foldlM, bind, Except.bind] at h
+    cases hB : pushLink (commitObj classes fuel) hist sA ((a, .plain path acts names), v) with
+    | error e => rw [hB] at h; cases h
+    | ok sB =>
+      rw [hB] at h
+      let Q : Val → Prop := fun t => getAt p t = some v
+      have h1 : Q sB.root := by
+        simp only [pushLink, bind, Except.bind, hp, pure, Except.pure] at hB
+        cases hw : (setAt p sA.root v).bind sA.withRoot with
+        | none => simp [hw] at hB
+        | some s1 =>
+          simp only [hw] at hB
+          have hq1 : Q s1.root := by
+            cases hs : setAt p sA.root v with
+            | none => simp [hs, Option.bind] at hw
+            | some r =>
+              simp only [hs, Option.bind] at hw
+              show getAt p s1.root = some v
+              rw [(withRoot_some sA s1 r hw).1]
+              exact get_set p sA.root v r hs
+          refine applyActs_inv Q acts (dropLastStep p) names ?_ s1 sB hB hq1
+          intro act hact
+          exact pres_of_diverge p _ _ (resolve_diverge hist _ path _ p (resolve_dest hist path p act.dest hp) hp
+                  (List.all_eq_true.mp hown act hact))
+      refine foldlM_inv Q _ L1.reverse ?_ sB s' h h1
+      intro lv hlv t t' ht hq
+      refine pushLink_inv Q (commitObj classes fuel) (foot classes fuel) ?_ hist t t' lv ht ?_ hq
+      · intro cc hh o u u' hu hpres hQu
+        exact commitObj_inv Q classes fuel cc hh o u u' hu hpres hQu
+      · exact linkAway_pres classes fuel hist path p hp Q (fun w hd => pres_of_diverge p w _ hd) lv
+          (haway lv (by simpa using hlv))
+
+/-- the decidable side conditions of `commit_plain_value` for link number `j` of class `c` at nesting depth `k` -/
+def plainSafe (classes : List ClassSpec) (fuel : Nat) (c : ClassSpec) (k j : Nat) : Bool :=
+  match c.links[j]? with
+  | some (_, .plain path acts _) =>
+    acts.all (fun x => PDiverge (destPPath path x.dest) path) &&
+      (c.links.take j).all (fun l => linkAway classes fuel k path l.2)
+  | _ => false
+
+/-- every plain link of the class is safe -/
+def allPlainSafe (classes : List ClassSpec) (fuel : Nat) (c : ClassSpec) (k : Nat) : Bool :=
+  (List.range c.links.length).all (fun j =>
+    match c.links[j]? with
+    | some (_, .plain _ _ _) => plainSafe classes fuel c k j
+    | _ => true)
+
+theorem commit_plain_value_of_safe (classes : List ClassSpec) (fuel cls : Nat) (hist : List Nat) (vals : List Val)
+    (s s' : Sections) (c : ClassSpec) (hc : classes[cls]? = some c)
+    (h : commitObj classes (fuel + 1) cls hist (.strct vals) s = .ok s')
+    (j : Nat) (hsafe : plainSafe classes fuel c hist.length j = true) (v : Val) (hv : vals[j]? = some v) :
+    ∃ a path acts names, c.links[j]? = some (a, .plain path acts names) ∧
+      ∀ p, resolve hist path = some p → getAt p s'.root = some v := by
+  unfold plainSafe at hsafe
+  split at hsafe
+  · rename_i a path acts names hl
+    simp only [Bool.and_eq_true] at hsafe
+    obtain ⟨hown, haway⟩ := hsafe
+    refine ⟨a, path, acts, names, hl, ?_⟩
+    have hjl : j < c.links.length := by
+      rcases List.getElem?_eq_some_iff.mp hl with ⟨h', _⟩; exact h'
+    have hjv : j < vals.length := by
+      rcases List.getElem?_eq_some_iff.mp hv with ⟨h', _⟩; exact h'
+    have hjz : j < (c.links.zip vals).length := by simp; omega
+    have hzj : (c.links.zip vals)[j] = ((a, LinkKind.plain path acts names), v) := by
+      rw [List.getElem_zip]
+      obtain ⟨_, e1⟩ := List.getElem?_eq_some_iff.mp hl
+      obtain ⟨_, e2⟩ := List.getElem?_eq_some_iff.mp hv
+      simp [e1, e2]
+    have hsplit : c.links.zip vals = (c.links.zip vals).take j ++
+        ((a, LinkKind.plain path acts names), v) :: (c.links.zip vals).drop (j + 1) := by
+      rw [← hzj, List.getElem_cons_drop]; exact (List.take_append_drop j _).symm
+    intro p hp
+    refine commit_plain_value classes fuel cls hist vals s s' c hc h _ _ a path acts names v hsplit p hp hown ?_
+    intro lv hlv
+    exact List.all_eq_true.mp haway lv.1 (mem_take_zip_fst j c.links vals lv hlv)
+  · cases hsafe
+
+end Aoe.Props.CommitFrame
+
+namespace Aoe.Props.CommitFrame
+open Aoe Aoe.Codec Aoe.Lens Aoe.Commit Aoe.Props.Links
+
+/-- **every plain link of a class reads back what was pushed** (class-level form of `commit_plain_value`) -/
+theorem commit_plain_values (classes : List ClassSpec) (fuel cls : Nat) (hist : List Nat) (vals : List Val)
+    (s s' : Sections) (c : ClassSpec) (hc : classes[cls]? = some c)
+    (h : commitObj classes (fuel + 1) cls hist (.strct vals) s = .ok s')
+    (hall : allPlainSafe classes fuel c hist.length = true)
+    (j a : Nat) (path : List PStep) (acts : List RefreshAct) (names : List Nat) (v : Val)
+    (hl : c.links[j]? = some (a, .plain path acts names)) (hv : vals[j]? = some v)
+    (p : List Step) (hp : resolve hist path = some p) : getAt p s'.root = some v := by
+  have hj : j < c.links.length := by
+    rcases List.getElem?_eq_some_iff.mp hl with ⟨h', _⟩; exact h'
+  have hsafe : plainSafe classes fuel c hist.length j = true := by
+    have := List.all_eq_true.mp hall j (List.mem_range.mpr hj)
+    simpa [hl] using this
+  obtain ⟨a', path', acts', names', hl', hval⟩ :=
+    commit_plain_value_of_safe classes fuel cls hist vals s s' c hc h j hsafe v hv
+  rw [hl] at hl'
+  simp only [Option.some.injEq, Prod.mk.injEq, LinkKind.plain.injEq] at hl'
+  obtain ⟨_, rfl, _, _⟩ := hl'
+  exact hval p hp
+
+end Aoe.Props.CommitFrame
